@@ -1,6 +1,7 @@
 package checks
 
 import (
+	"sort"
 	"fmt"
 	"math/rand"
 	"os"
@@ -52,6 +53,7 @@ func (c *c20) Cases(tier string, seed int64) []core.Case {
 				}
 			}
 		}
+		cs = append(cs, core.MkCase(fmt.Sprintf("par2-copy-deleted-%d", k), c20Params{r.Int63(), "par2", "copy-deleted", "set"}))
 		for _, cap := range []string{"255+1", "250+6", "157+99", "3+99", "1+1"} {
 			cs = append(cs, core.MkCase(fmt.Sprintf("par1-capacity-%s-%d", cap, k), c20Params{r.Int63(), "par1", "capacity:" + cap, "set"}))
 		}
@@ -122,6 +124,51 @@ func (c *c20) runCapacity(r *core.R, p c20Params, rng *rand.Rand) {
 	r.Sample(map[string]interface{}{"format": "par1", "state": p.State, "files": nf, "volumes": nv})
 }
 
+// runCopyDeleted: a PAR2 set created by the binary protects a file and an
+// exact copy of it, with fewer recovery blocks than the file has slices; the
+// copy is deleted. Repair is needed and possible (1), repair does it (0),
+// afterwards nothing is left to do (0).
+func (c *c20) runCopyDeleted(r *core.R, p c20Params, rng *rand.Rand) {
+	root, err := os.MkdirTemp("", "c20copy-")
+	if err != nil {
+		r.Inconclusive("tempdir: %v", err)
+		return
+	}
+	defer os.RemoveAll(root)
+	setDir := filepath.Join(root, "set")
+	os.MkdirAll(setDir, 0755)
+	orig := scen.GenData(rng, "random", 16*(4+rng.Intn(4))+rng.Intn(16), 16)
+	files := map[string][]byte{"report.doc": orig, "report (copy).doc": append([]byte(nil), orig...), "other.bin": scen.GenData(rng, "random", 40, 16)}
+	var names []string
+	for n, b := range files {
+		os.WriteFile(filepath.Join(setDir, n), b, 0644)
+		names = append(names, n)
+	}
+	sort.Strings(names)
+	check := func(what string, got cliRun, want string) {
+		r.Count("invocations", 1)
+		if strings.Contains(got.out, "panic: ") || got.signal != "" {
+			r.Violate("process-crashed|par2|"+what, "%s: crashed: %s", what, tailStr(got.out, 500))
+		}
+		if fmt.Sprint(got.exit) != want {
+			r.Violate(fmt.Sprintf("exit-status|par2|%s|want=%s|got=%d", what, want, got.exit), "%s [a file and its exact copy protected with 2 blocks; one of the two deleted]: exit status %d, expected %s; output tail: %s", what, got.exit, want, tailStr(got.out, 400))
+		}
+		r.Key("par2|copy-deleted|%s", what)
+		r.SetAdd("exit_statuses_seen", fmt.Sprint(got.exit))
+	}
+	check("create-with-a-copy", runPar(setDir, append([]string{"c", "-s", "16", "-c", "2", "dup.par2"}, names...)...), "0")
+	victim := []string{"report.doc", "report (copy).doc"}[rng.Intn(2)]
+	os.Remove(filepath.Join(setDir, victim))
+	check("verify-copy-deleted", runPar(setDir, "v", "dup.par2"), "1")
+	rr := runPar(setDir, "r", "dup.par2")
+	check("repair-copy-deleted", rr, "0")
+	if b, err := os.ReadFile(filepath.Join(setDir, victim)); rr.exit == 0 && (err != nil || string(b) != string(orig)) {
+		r.Violate("exit-0-contradicted-by-disk|repair", "repair exited 0 but %s is not back", victim)
+	}
+	check("verify-after-repair", runPar(setDir, "v", "dup.par2"), "0")
+	r.Sample(map[string]interface{}{"format": "par2", "state": p.State, "deleted": victim})
+}
+
 type cliRun struct {
 	exit   int
 	signal string
@@ -161,6 +208,10 @@ func (c *c20) Run(cs core.Case) core.Result {
 	rng := rand.New(rand.NewSource(p.Seed))
 	if strings.HasPrefix(p.State, "capacity:") {
 		c.runCapacity(r, p, rng)
+		return r.Done()
+	}
+	if p.State == "copy-deleted" {
+		c.runCopyDeleted(r, p, rng)
 		return r.Done()
 	}
 	dup := false
